@@ -134,6 +134,7 @@ class Conds:
             while isinstance(term, tuple) and term[0] == "unop" and term[1] == "Not":
                 term = term[2]
                 pol = not pol
+            term = canon_cmp(term)
             by = {}
             for v, tb in targets:
                 val = (int(v) != 0)
@@ -157,3 +158,33 @@ def cmp_atom(term):
     if isinstance(term, tuple) and term and term[0] == "binop" and term[1] in CMP_OPS:
         return (term[1], term[2], term[3])
     return None
+
+
+_CALL_CMP = {"lt": "Lt", "le": "Le", "gt": "Gt", "ge": "Ge"}
+
+
+def _is_const(t):
+    return isinstance(t, tuple) and t and t[0] == "const" and t[1] is not None
+
+
+def canon_cmp(term):
+    """canonical spelling of a comparison, so that `a > b` / `b < a` / `PartialOrd::gt(a, b)` are one shape:
+    * binop with a constant operand: the constant is on the right (operator swapped when needed);
+    * binop without constants: only Lt / Le / Eq / Ne (Gt/Ge are swapped);
+    * PartialOrd::gt / ge calls become PartialOrd::lt / le calls with swapped operands (callee text keeps its prefix)."""
+    if not isinstance(term, tuple) or not term:
+        return term
+    if term[0] == "binop" and term[1] in CMP_OPS:
+        op, a, b = term[1], term[2], term[3]
+        if _is_const(a) and not _is_const(b):
+            return ("binop", SWAP[op], b, a)
+        if not _is_const(b) and op in ("Gt", "Ge"):
+            return ("binop", SWAP[op], b, a)
+        return term
+    if term[0] == "call" and len(term[3]) == 2:
+        name = term[1]
+        last = name.split("::")[-1]
+        if last in ("gt", "ge") and "PartialOrd" in name:
+            new_last = "lt" if last == "gt" else "le"
+            return ("call", name[: -len(last)] + new_last, term[2], (term[3][1], term[3][0]))
+    return term
